@@ -157,7 +157,7 @@ CHECKS = {
         note="interval domain only: panics depending on relations between header vectors (table index vs table count, is_last markers, Huffman code shapes) are not decided",
         ref="DESIGN.md section 8.8"),
     "C18": dict(
-        technique="validation-check reconstruction from MIR against a reviewed table of the ICC stream decoder's consistency conditions; exhaustive walk of the tag-name decision tree; symbolic normal form of the prediction shift amount; exhaustive evaluation of the ICC header predictor from MIR (every position, every platform rule) against the format's predictor; abstract evaluation from MIR of shuffle2 / shuffle4 (every length 0..17, 64, 65) and of the whole ICC command interpreter decode_icc (53 scripted streams: every command, tag shortcut and rejection) against an interpreter written from the format (R-ICC-SHUFFLE, R-ICC-INTERP; found D62)",
+        technique="validation-check reconstruction from MIR against a reviewed table of the ICC stream decoder's consistency conditions; exhaustive walk of the tag-name decision tree; symbolic normal form of the prediction shift amount; exhaustive evaluation of the ICC header predictor from MIR (every position, every platform rule) against the format's predictor; abstract evaluation from MIR of shuffle2 / shuffle4 (every length 0..17, 64, 65) and of the whole ICC command interpreter decode_icc (53 scripted streams: every command, tag shortcut and rejection) against an interpreter written from the format (R-ICC-SHUFFLE, R-ICC-INTERP; found D62) and of the 41-context function get_icc_ctx (R-ICC-CTX); backward trace of the context history to its single start per profile (R-ICC-HISTORY)",
         text="Two clauses. Rejection: 24 consistency conditions of "
              "read_icc/decode_icc (sizes, offsets, command/tag codes, predictor parameters, available data, final length) exist as "
              "compare->error checks with the reviewed bound. Interpreter: header predictor, shuffles and the command interpreter agree with "
